@@ -154,6 +154,9 @@ func AddStandardFilters(fd FilterDictionary) { //nolint: gocyclo
 		exp := math.Pow10(pl)
 		// round half up; adding 0.5 before Floor is inexact for magnitudes of 2^52 and above
 		x := n * exp
+		if math.IsInf(exp, 0) || math.Abs(x) >= 1<<52 {
+			return n // at this many places n has no digits left to round away (and n * 10^places is no longer exact)
+		}
 		r := math.Floor(x)
 		if x-r >= 0.5 {
 			r++
